@@ -483,3 +483,32 @@ Definition opq_which_synthetic (fd : fdesc) (c : ocell) : bool :=
   | KMsgPtr | KMsgListPtr => false          (* the presence bit of a field that does not use the bitmap *)
   | _ => opq_has fd c
   end.
+
+(* ---------------------------------------------------------------- running the concrete machines
+   (used by the model driver: the concrete machines are run next to the contract model) *)
+Fixpoint refl_nodup_nums (seen : list N) (md : mdesc) : bool :=
+  match md with
+  | [] => true
+  | fd :: r => negb (existsb (N.eqb (f_num fd)) seen) && refl_nodup_nums (f_num fd :: seen) r
+  end.
+(* the decidable form of the hypothesis [md_ok] of the refinement theorems *)
+Definition refl_md_okb (md : mdesc) : bool := refl_nodup_nums [] md && forallb refl_fd_ok md.
+
+(* a concrete message holding the fields of an abstract one *)
+Definition cm_of_fields {cell} (ops : cellops cell) (md : mdesc) (lazycell : fdesc -> list value -> option cell)
+    (m : msg_macc) : cmsg cell :=
+  mkCM (flat_map (fun p => match msg_find_field md (fst p) with
+                           | Some fd => [(fst p, match lazycell fd (snd p) with
+                                                 | Some c => c
+                                                 | None => c_set ops fd (snd p) (c_zero ops)
+                                                 end)]
+                           | None => [] end) (fst m)) (snd m).
+
+(* a lazily decoded opaque message: lazy message fields hold the presence bit, a nil pointer and
+   the retained buffer *)
+Definition opq_lazycell (fd : fdesc) (vs : list value) : option ocell :=
+  match opq_class fd, vs with
+  | KMsgLazy, [v] => Some (OCMsgLazy true None v)
+  | KMsgListLazy, _ :: _ => Some (OCMsgListLazy true None vs)
+  | _, _ => None
+  end.
